@@ -31,6 +31,7 @@ import MW.Lemmas.RemoveSimWEx
 import MW.Lemmas.RemoveSimWConn
 import MW.Lemmas.RemoveSimWFrame
 import MW.Lemmas.RemoveUpperW
+import MW.Lemmas.RemoveBelowEx
 namespace MW.Props.C08
 open MW MW.Model.Ledger MW.Model.Remove MW.Lemmas.RemoveScan MW.Lemmas.RemoveStep MW.Lemmas.RemoveFrame
   MW.Lemmas.RemoveProgress
@@ -846,10 +847,12 @@ example (o : StepOut) (h : removeStep 20000 (MW.Lemmas.PendHist.exE.ctx MW.Lemma
     (`remove_interleaved_cex_repaired`), every removal step keeps "each credit / debit has its tx record", which is what
     Rollback needs to reach them (`remove_step_keeps_reach`), and the proved domains are unchanged (`remove_interleaved_ext`,
     `…_above`, `…_above_nopend`, `remove_after_follower_projects`).  Not proved: reorganisations between two steps that go
-    below the tip the follower had at the first step, in general.  Round 7 proved the building blocks (section Round7
-    below: the relaxed relation `SubW` through removal steps, one / any number of disconnected blocks without `NewEq`,
-    the connect step, the relaxed in-progress invariant `MidUW` with its finishing step); what is missing is `MidUW`
-    across a block at or below the flag height, the assembly, and that Rollback does not fail on stale entries of `w`. -/
+    below the tip the follower had at the first step — until Round 7: `remove_interleaved_below` (section Round7 below)
+    proves the statement for histories inside `DomW`, reorganisations of ANY depth between the steps included.  What
+    still separates this `def` from a theorem: its hypotheses give the pending-side clause only at the START (`DomW` asks
+    `PendOK` at every removal step; carried as an invariant only in the domains of `remove_interleaved_above_nopend`),
+    they do not ask that block ids determine blocks (`IdInj`) nor that a restarted follower reports the stored best
+    block, and a genesis re-announcement is not excluded. -/
 def remove_interleaved_projects_full : Prop :=
   ∀ (limit : Nat) (c : Ctx) (w : Wid) (addrs : List Addr) (own' : Own) (G : Block) (x0 x : ISt) (evs : List IEv)
     (ws' : List Wid),
@@ -1229,6 +1232,48 @@ theorem remove_disconnect_frame {c : Ctx} {s s' : Store} {h : Nat} (hh : s.synce
     (hd : disconnectBlock c s h = .ok s') :
     RbFrame h s s' ∧ (∀ h', h' ≠ h → AMap.get s'.blocks h' = AMap.get s.blocks h') ∧ AMap.get s'.blocks h = none :=
   disconnectBlock_frame hh hd
+
+
+/-- **remove_interleaved_below** (step 4: the assembly).  REORGANISATIONS OF ANY DEPTH BETWEEN THE REMOVAL STEPS — above
+    or BELOW the tip the follower had at the first step, also below the height at which the wallet was flagged.  From a
+    store that follows the chain with `w` flagged (`Phase1`), any history inside `DomW` (= `DomC` of
+    `remove_interleaved_above` WITHOUT its floor clause: a removal step needs the pending-side clause `PendOK`; a tip
+    notification announces any node state — `NodeOK`, block ids determine blocks; unconfirmed transactions anywhere; a
+    restarted follower reports the stored best block) that RUNS — `irun … = some x`: every database transaction of the
+    history succeeded, in particular the follower's on the real store — and ends with the finishing step leaves C01's
+    invariant for the table without `w`, on the chain the follower was last told about.
+    Proof: invariant `PhaseW` = a ghost store following the chain with `w` flagged (`GhostX`) + the real store related by
+    `SubW` + `Reach` + the relaxed in-progress invariant `MidCW`; a notification is run on both stores
+    (`p2w_processM`: the ghost's run exists by `FJ`, the disconnect loops are in lock step, each disconnected block is
+    `p2w_disc` — `remove_disconnect_below` + `midUW_shrink`, the ghost height drops when the block was at it — each
+    connected block `p2w_connect`).  This closes gap (1) of Round 6 for `remove_interleaved_projects_full`; what keeps the
+    latter an open `def` is the pending side (`PendOK` at the steps is a domain clause here) and the side conditions on
+    notifications / restarts, as for `remove_interleaved_above`.  NOT proved: that the follower's transaction cannot
+    FAIL on the real store because of stale entries of `w` (then `irun` is `none` and the statement says nothing). -/
+theorem remove_interleaved_below {limit : Nat} {c : Ctx} {w : Wid} {addrs : List Addr} {own' : Own} {G : Block}
+    {x0 x : ISt} {evs : List IEv} {ws' : List Wid}
+    (hP : Phase1 c w G x0) (hS : Static c w addrs own') (hD : DomW limit c w addrs G x0 evs)
+    (hrun : irun limit c w addrs x0 evs = some x) (hfin : x.fin = true) (hws : ∀ y ∈ ws', y ∈ c.wallets) :
+    Inv { c with own := own', wallets := ws', node := x.node } x.s x.node.chain :=
+  MW.Lemmas.RemoveInterleave.remove_interleaved_below hP hS hD hrun hfin hws
+
+/-- non-vacuity: the D45 history (removal step · the node replaces B1 and B2, connected before the first step · finishing
+    step) is inside `DomW`, it runs, and — by the general theorem, not by evaluation — ends in C01's invariant for W1
+    alone on chain B -/
+example (x : ISt) (h : irun 1 MW.Lemmas.RemoveMidCex.ctx "W2" ["A2"] MW.Lemmas.RemoveMidCex.x0
+      MW.Lemmas.RemoveMidCex.evs = some x) :
+    x.node = MW.Lemmas.RemoveMidCex.nodeB ∧
+    Inv { MW.Lemmas.RemoveMidCex.ctx with own := MW.Lemmas.RemoveMidCex.own', wallets := ["W1"], node := x.node } x.s
+      x.node.chain := MW.Lemmas.RemoveBelowEx.d45_history_inv x h
+
+/-- **remove_notify_below** — one tip notification (extension or reorganisation of any depth) between two removal steps:
+    if its database transaction succeeded on the real store, the in-progress state holds for the announced chain -/
+theorem remove_notify_below {limit : Nat} {c : Ctx} {w : Wid} {addrs : List Addr} {own' : Own} {G : Block} {x x' : ISt}
+    {n : Node} {b : Block} (hS : Static c w addrs own') (hP : PhaseW c w addrs own' G x)
+    (hN : NodeOK c.own G x.node.known n b) (hinj : IdInj (x.node.chain ++ n.chain))
+    (hg0 : b.height = 0 → b.prev ≠ x.v.best.hash)
+    (h : istep limit c w addrs x (.notify n b) = some x') : PhaseW c w addrs own' G x' :=
+  phaseW_notify hS hP hN hinj hg0 h
 
 end Round7
 
